@@ -280,6 +280,9 @@ impl<'a> Renderer<'a> {
                     .collect::<Vec<_>>()
                     .join(", ")
             )
+        } else if let Some(own) = f.owner.map(|im| self.p.impls[im].tparams).filter(|n| f.tparams > *n) {
+            // a method's own type parameters come after those of its impl block
+            format!("[{}]", (own..f.tparams).map(|i| TPARAM_NAMES[i as usize % 4]).collect::<Vec<_>>().join(", "))
         } else {
             String::new()
         };
